@@ -16,6 +16,7 @@ import EvalexprVerif.Proofs.LexRoundtrip
 import EvalexprVerif.Proofs.ParseLoose
 import EvalexprVerif.Proofs.LexExt
 import EvalexprVerif.Proofs.AgreeFnTokensToTree
+import EvalexprVerif.Proofs.AgreeFnInterface
 
 namespace Evalexpr.Spec.C02
 open Evalexpr Evalexpr.Spec
@@ -122,6 +123,14 @@ theorem C02_string_ext (e : Expr) (ps : List (Gap × PTok)) (g : Gap)
   unfold buildOperatorTree
   rw [Evalexpr.Spec.C07_roundtrip_ext ps g hp ha, hts]
   exact C02_parse e
+
+/-- **C02 from source text to tree, about the code as translated on this run**: the rendered `build_operator_tree`
+(rendered lexer + rendered tree builder) maps every admissible spelling of the rendering of every expression AST to the
+reference tree -/
+theorem C02_string_generated (e : Expr) (ps : List (Gap × PTok)) (g : Gap)
+    (hts : ps.map (·.2.tok) = render e) (hp : ∀ p ∈ ps, p.2.PrintableX) (ha : AdmissibleX ps g) :
+    Gen.build_operator_tree (renderFrom ps g) = .ok ⟨.rootNode, [toTree e]⟩ := by
+  rw [AgreeFn.fn_build_operator_tree_agree]; exact C02_string_ext e ps g hts hp ha
 
 /-- **C02 (everyday spelling)**: also with a prefix operator written WITHOUT parentheses as the right
 operand of `^` (`2 ^ -3`, `a ^ --b`, `a ^ -f x`) — everywhere except in the shape the property
